@@ -73,7 +73,16 @@ def drive (body impl : String) : Verdict :=
         let f16 := if abn then [s!"[abort-or-hang] {impl}"] else Spec.Nio.c16 obs
         let f17 := if abn then [s!"[abort-or-hang] {impl}"] else Spec.Nio.c17 obs
         let f18 := if abn then [s!"[abort-or-hang] {impl}"] else Spec.Nio.c18 obs
-        { modelOut := render limit out isWrite,
+        -- which property's correspondence a difference breaks
+        let mo := render limit out isWrite
+        let diff := fun (k : String) => kv mo k != kv impl k
+        let blame : List String :=
+          (if diff "ret" || diff "errno" || diff "moved" || diff "lasterr" || diff "placed" || diff "elapsed" then ["C16"] else []) ++
+          (if diff "reqs" then (if k.isVec then ["C17"] else ["C16"]) else []) ++
+          (if diff "flag" then ["C18"] else []) ++
+          (if diff "waits" then (if blocking then ["C16"] else ["C18"]) else [])
+        { modelOut := mo,
+          blame := if mo == impl then none else some (if blame.isEmpty then ["C16", "C17", "C18"] else blame.eraseDups),
           spec := [("C16", f16.isEmpty, joinWith " ; " f16), ("C17", f17.isEmpty, joinWith " ; " f17), ("C18", f18.isEmpty, joinWith " ; " f18)],
           labels := [call, if blocking then "blocking" else "nonblocking",
                      if out.ret ≥ 0 then "success" else if out.waits.isEmpty then "fail-nowait" else "fail-after-wait",
